@@ -60,7 +60,7 @@ inductive Ev
   | issueBegin (p : Nat)
   | issueEnd (p : Nat) (ok : Bool)
   | saveOk (p : Nat)
-  | saveFail (p : Nat) (k : Nat)     -- the k-th of the three stores failed (k = 0,1,2); roll-back deletes the earlier ones
+  | saveFail (p : Nat) (k : Nat)     -- the k-th of the three stores failed (k = 0,1,2); roll-back restores the earlier ones
   | retry (p : Nat)
   | giveUp (p : Nat)
   | rel (p : Nat)
@@ -121,11 +121,11 @@ def step (due : Ver → Bool) (s : St) : Ev → Option St
     if s.pc p = .save then
       some { s with stored := some s.next, next := s.next + 1, pc := upd s.pc p (.release true) }
     else none
-  | .saveFail p k =>
+  | .saveFail p _k =>
     if s.pc p = .save then
-      -- storeTx rolls back by DELETING what it wrote: if the first store failed nothing
-      -- changed, otherwise the key (and certificate) of the previous bundle are gone too
-      some { s with stored := if k = 0 then s.stored else none, pc := upd s.pc p .failed }
+      -- storeTx rolls back: the keys already written are put back to what they held before
+      -- (after the `fix:` commit; it used to delete them, destroying the previous bundle)
+      some { s with pc := upd s.pc p .failed }
     else none
   | .retry p =>
     if s.pc p = .failed ∧ s.async p = true then some { s with pc := upd s.pc p .recheck } else none
